@@ -887,6 +887,24 @@ Proof.
   - intros id G Hlt. apply MA. apply J3; assumption.
 Qed.
 
+Lemma sinv_reopen st s : Sinv st -> Sinv (reopen_data st s).
+Proof.
+  intros H. apply (sinv_update st); [reflexivity|reflexivity|reflexivity|reflexivity| | | | |exact H]; simpl.
+  - eapply grow_trans; [apply grow_data_tags|apply grow_inherit].
+  - intros i Hi; rewrite mem_union, Hi; reflexivity.
+  - auto.
+  - auto.
+Qed.
+
+Lemma sinv_after_detach k b st : Sinv st -> Sinv (after_detach k b st).
+Proof.
+  intros H. unfold after_detach. destruct (kf_detachreset k); [exact H|].
+  destruct (b && has_data_tag (tags st)); [|exact H]. apply sinv_reopen, H.
+Qed.
+
+Lemma sinv_tag_again k p st : Sinv st -> Sinv (tag_again k p st).
+Proof. intros H. unfold tag_again. destruct (kf_detachreset k); [exact H|apply sinv_start_tagging, H]. Qed.
+
 (* converter attach / detach touch only the converter list of a tag *)
 Lemma grow_tset_conv nx n t t' ts :
   sorted ts -> tget n ts = Some t -> t_def t' = t_def t -> t_m t' = t_m t -> t_u t' = t_u t -> t_live t' = true ->
@@ -987,7 +1005,7 @@ Proof.
     + apply (sinv_fields st); [repeat split|exact H].
   - (* ASetConv *) simpl. destruct (tget n (tags st)); [|exact H].
     match goal with |- context[if ?b then _ else _] => destruct b end; [|exact H].
-    apply sinv_start_converter, sinv_attach_all. apply sinv_fold; [|exact H].
+    apply sinv_start_converter, sinv_tag_again, sinv_attach_all, sinv_after_detach. apply sinv_fold; [|exact H].
     intros s c Hs. destruct (memN c cs); [exact Hs|apply sinv_detach; exact Hs].
   - (* ABodyImport *) simpl. destruct (jimp st) as [j|] eqn:J; [|exact H].
     destruct (ij_resp j); [exact H|].
@@ -1299,6 +1317,40 @@ Proof.
   exists t0. split; [exact I0|split; congruence].
 Qed.
 
+Lemma start_tagging_tags6 p st : tags (start_tagging p st) = tags st.
+Proof.
+  unfold start_tagging. destruct (jtag st); [reflexivity|].
+  destruct (if eligible (tags st) p then Some p else first_eligible (tags st)); [|reflexivity].
+  destruct (tget n (tags st)); reflexivity.
+Qed.
+
+Lemma after_detach_defs kf0 b st k t : In (k, t) (tags (after_detach kf0 b st)) ->
+  exists t0, In (k, t0) (tags st) /\ t_def t0 = t_def t /\ t_live t0 = t_live t.
+Proof.
+  unfold after_detach. destruct (kf_detachreset kf0); [intros I; exists t; auto|].
+  destruct (b && has_data_tag (tags st)); [|intros I; exists t; auto].
+  unfold reopen_data. simpl. intros I.
+  assert (Forall2 same1 (tags st) (inherit (ones (next st)) (data_tags_uncertain (ones (next st)) (tags st)))) as SM.
+  { eapply grow_same. eapply grow_trans; [apply grow_data_tags|apply grow_inherit]. }
+  destruct (Forall2_In_r _ _ _ _ SM I) as ([k0 t0] & I0 & (E1 & E2 & E3)). simpl in *. subst k0. exists t0. auto.
+Qed.
+
+(* the repaired detach: when the converter was reset and a tag with a data filter exists, every live tag with a data
+   filter is undecided for every stream afterwards *)
+Lemma after_detach_reopens st n t id :
+  has_data_tag (tags st) = true -> In (n, t) (tags (after_detach repaired true st)) ->
+  d_data (t_def t) = true -> id < next st -> mem id (t_u t) = true.
+Proof.
+  intros HD I DD Hid. unfold after_detach in I. simpl in I. rewrite HD in I. unfold reopen_data in I. simpl in I.
+  destruct (Forall2_In_r _ _ _ _ (grow_inherit (next st) (data_tags_uncertain (ones (next st)) (tags st))) I)
+    as ([k1 t1] & I1 & ((E1 & E2 & E3) & _ & GU)). simpl in *.
+  apply GU; [exact Hid|]. unfold data_tags_uncertain in I1. apply in_map_iff in I1.
+  destruct I1 as ([k0 t0] & E & I0). simpl in E. inversion E; subst k1 t1; clear E.
+  destruct (d_data (t_def t0)) eqn:D0.
+  - simpl. rewrite mem_union, (mem_ones id (next st) Hid). apply orb_true_r.
+  - exfalso. rewrite <- E2 in DD. congruence.
+Qed.
+
 Lemma with_def_id_refs d i : d_refs (with_def_id d i) = d_refs d /\ (def_ok d -> def_ok (with_def_id d i)).
 Proof. split; [reflexivity|]. unfold def_ok. simpl. auto. Qed.
 
@@ -1321,9 +1373,13 @@ Proof.
     destruct (referenced n (tags st)) eqn:RF; [exact H|].
     set (st1 := fold_left (fun s c => detach s n c) (t_conv t) st).
     assert (Sinv st1) as H1 by (apply sinv_fold; [intros; apply sinv_detach; assumption|exact H]).
+    apply sinv_tag_again.
+    match goal with |- Sinv (set_tags ?s2 _) => set (st2 := s2) end.
+    assert (Sinv st2) as H2 by (apply sinv_after_detach; exact H1).
     apply sinv_slot; try assumption.
-    + intros k0 t0 I L Hin. destruct (fold_detach_defs _ _ _ _ _ I) as (t1 & I1 & D1 & L1).
-      apply (referenced_false n (tags st) RF k0 t1 I1); [congruence|rewrite D1; exact Hin].
+    + intros k0 t0 I L Hin. destruct (after_detach_defs _ _ _ _ _ I) as (t2 & I2 & D2 & L2).
+      destruct (fold_detach_defs _ _ _ _ _ I2) as (t1 & I1 & D1 & L1).
+      apply (referenced_false n (tags st) RF k0 t1 I1); [congruence|rewrite D1, D2; exact Hin].
     + simpl. discriminate.
     + simpl. discriminate.
   - (* AQuery *) simpl. destruct (tget n (tags st)) as [t|] eqn:Tn; [|exact H].
